@@ -1,9 +1,9 @@
 """C04 -- see harness/pipeline.py (Level 1: whole Aligner.align on tiny symbolic maps)."""
-from harness import pipeline, level2
+from harness import pipeline, level2, multipass
 
 
 def units(prop):
-    return [pipeline.level1_unit(prop), level2.level2_unit(prop), level2.pair_unit(prop), args_unit()]
+    return [pipeline.level1_unit(prop), level2.level2_unit(prop), level2.pair_unit(prop), multipass.multipass_unit(prop), args_unit()]
 
 
 # ------------------------------------------------------------------------------------------------ command-line wiring (concrete)
